@@ -156,10 +156,16 @@ func clusterIndex(ci *clusters.ClusterInfo, req gen.Request) (int, error) {
 // reference, depends only on (attributes, current policy list): same twice, same on a fresh ClusterInfo, same after
 // unrelated spec churn, and follows the current list after a policy update.
 func TestPropClusterInfo(t *testing.T) {
-	sub := stats.NewSub("clusterinfo-metamorphic", "rapid: policy list A, policy list B, 3 requests; ClusterInfo synced A -> (unrelated churn) -> B -> A; oracle = reference index for the list current at each point + equality with a fresh ClusterInfo; non-trivial = reference answers for A and B differ for some request")
+	sub := stats.NewSub("clusterinfo-metamorphic", "rapid: policy list A, policy list B (one time in six empty: every policy removed), 3 requests; ClusterInfo synced A -> (unrelated churn) -> B -> A; oracle = reference index for the list current at each point + equality with a fresh ClusterInfo; non-trivial = reference answers for A and B differ for some request")
 	stats.Check(t, stats.N(4000, 60000), func(t *rapid.T) {
 		a := gen.GenPolicies(t, "A", 3, 2)
 		b := gen.GenPolicies(t, "B", 3, 2)
+		switch rapid.IntRange(0, 11).Draw(t, "emptyB") {
+		case 0:
+			b = nil // every policy removed (validation refuses such an object, the data plane must still follow the list)
+		case 1:
+			b = []proxyv1alpha1.DispatchPolicy{}
+		}
 		reqs := []gen.Request{gen.GenRequest(t, "r0"), gen.GenRequest(t, "r1"), gen.GenRequest(t, "r2")}
 		ci := newCluster(t, "c1", a)
 		defer ci.Stop()
